@@ -56,7 +56,7 @@ func finiteCheck(prop, which string) *sqrun.Check {
 		Run: func(c *sqrun.Ctx) *sqrun.Outcome {
 			caps := []int{2, 3, 4}
 			if c.Thorough {
-				caps = []int{2, 3, 4, 5}
+				caps = []int{2, 3, 4, 5, 6, 7}
 			}
 			var states, trans, probes int64
 			exhaustive := true
@@ -215,7 +215,7 @@ func validCheck(prop, which string) *sqrun.Check {
 			var mu sync.Mutex
 			depth := 7
 			if c.Thorough {
-				depth = 10
+				depth = 8
 			}
 			if d, err := strconv.Atoi(os.Getenv("VERIF_VALID_DEPTH")); err == nil {
 				depth = d
